@@ -30,7 +30,7 @@ ASSUMPTIONS = [
     'oracles: own emsg reader (walker), own SCTE-35 bit reader and CRC-32/MPEG-2 (self-tested on the ANSI/SCTE 35 examples)',
     'shims + werkzeug test client as HTTP boundary',
 ]
-REQUIRED_COUNTERS = ['runs.vod', 'runs.live', 'events.inband_checked', 'events.outofband_checked',
+REQUIRED_COUNTERS = ['scte35.empty_upids', 'runs.two_event_types', 'runs.vod', 'runs.live', 'events.inband_checked', 'events.outofband_checked',
                      'scte35.payloads_checked', 'scte35.roundtrips', 'reach.create_emsg_boxes',
                      'reach.create_binary_signal', 'reach.create_manifest_context']
 
@@ -220,10 +220,18 @@ def run_http(ctx: ShardCtx, res: ShardResult, env, checker: EventChecker) -> Non
         kind = rng.choice(['ping', 'scte35'])
         s = gen_schedule(rng)
         params = schedule_params(kind, s)
+        # a second event stream of the other type (its own schedule) on the same request, in either order
+        others: dict[str, dict] = {}
+        if rng.random() < 0.3:
+            k2 = 'scte35' if kind == 'ping' else 'ping'
+            others[k2] = gen_schedule(rng)
+            params.update(schedule_params(k2, others[k2]))
+            params['events'] = f'{kind},{k2}' if rng.random() < 0.5 else f'{k2},{kind}'
         mode = rng.choice(['vod', 'vod-time', 'live', 'live'])
         segs = []
         label = ''
-        replay = {'run': {'stream': stream, 'kind': kind, 'schedule': s, 'mode': mode}}
+        replay = {'run': {'stream': stream, 'kind': kind, 'schedule': s, 'mode': mode, 'others': others,
+                          'events': params['events']}}
         if mode.startswith('vod'):
             first = rng.randrange(1, nseg - 1)
             last = rng.randrange(first + 2, nseg + 1) if first + 2 <= nseg else nseg
@@ -257,6 +265,9 @@ def run_http(ctx: ShardCtx, res: ShardResult, env, checker: EventChecker) -> Non
                 s['start'] += shift
                 mp[f'{kind}__start'] = str(s['start'])
                 replay['run']['schedule'] = s
+                for k2, s2 in others.items():
+                    s2['start'] += max(0, int((elapsed - depth) * s2['timescale']) - rng.randrange(0, 8 * s2['timescale']))
+                    mp[f'{k2}__start'] = str(s2['start'])
             env.clock.set(now)
             murl = f'/dash/live/{stream}/{manifest}' + qs(mp)
             r = env.get(murl, client=client)
@@ -275,6 +286,8 @@ def run_http(ctx: ShardCtx, res: ShardResult, env, checker: EventChecker) -> Non
             replay['run'].update({'manifest_url': murl, 'now': now.isoformat()})
             res.count('runs.live')
             self_check_manifest_events(res, doc, kind, s, replay, label, checker)
+            for k2, s2 in others.items():
+                self_check_manifest_events(res, doc, k2, s2, replay, label + f' [{k2} of {mp["events"]}]', checker)
         ok = True
         for u in urls:
             r = env.get(u, client=client)
@@ -298,6 +311,10 @@ def run_http(ctx: ShardCtx, res: ShardResult, env, checker: EventChecker) -> Non
             res.count('runs.not_contiguous')
             continue
         nontrivial = checker.check_run(kind, s, segs, rep_ts, replay, label)
+        for k2, s2 in others.items():
+            res.count('runs.two_event_types')
+            if checker.check_run(k2, s2, segs, rep_ts, replay, label + f' [{k2} of events={params["events"]}]'):
+                res.count('runs.two_event_types_nontrivial')
         ratio = Fraction(s['interval'], 4 * s['timescale'])
         icls = 'lt-seg' if ratio < 1 else 'eq-seg' if ratio == 1 else 'gt-seg'
         if nontrivial:
@@ -390,10 +407,31 @@ def run_scte35_roundtrip(ctx: ShardCtx, res: ShardResult) -> None:
         elif kind == 'time_signal':
             fields['time_signal'] = {'pts': rng.choice([bits(33), None])}
         descs = []
+        seg_fields = None
         if rng.random() < 0.6:
-            descs.append(descriptors.SegmentationDescriptor(
-                segmentation_event_id=bits(32), segmentation_duration=0,
-                segmentation_type=rng.choice([0x34, 0x35, 0x36, 0x37, 0x10, 0x30])))
+            seg_fields = {'segmentation_event_id': bits(32),
+                          'segmentation_duration': rng.choice([0, None, bits(40), 1, 90000 * 30]),
+                          'segmentation_type': rng.choice([0x34, 0x35, 0x36, 0x37, 0x10, 0x30, 0x38, 0x3A, 0x00, 0x50])}
+            r = rng.random()
+            if r < 0.45:
+                # a unique programme identifier: any type with any length, a present but empty one included
+                # (type 0 "not used" with length 0 is what encoders write when there is none)
+                from dashlive.utils.binary import Binary
+                upid = rng.choice([b'', b'', rng.randbytes(8), rng.randbytes(12), b'ABCD0123456H', rng.randbytes(rng.randrange(1, 40))])
+                seg_fields['segmentation_upid_type'] = rng.choice([0x00, 0x01, 0x08, 0x09, 0x0C, 0x0E, 0x0F, bits(8)])
+                seg_fields['segmentation_upid'] = Binary(upid, encoding=Binary.BASE64)
+            if rng.random() < 0.4:
+                seg_fields.update({'segment_num': bits(8), 'segments_expected': bits(8)})
+                if seg_fields['segmentation_type'] in (0x34, 0x36, 0x38, 0x3A):
+                    seg_fields.update({'sub_segment_num': bits(8), 'sub_segments_expected': bits(8)})
+            if rng.random() < 0.3:
+                seg_fields.update({'delivery_not_restricted_flag': False, 'web_delivery_allowed_flag': rng.random() < 0.5,
+                                   'no_regional_blackout_flag': rng.random() < 0.5, 'archive_allowed_flag': rng.random() < 0.5,
+                                   'device_restrictions': rng.randrange(4)})
+            if rng.random() < 0.1:
+                seg_fields = {'segmentation_event_id': bits(32), 'segmentation_event_cancel_indicator': True,
+                              'segmentation_type': 0x10}
+            descs.append(descriptors.SegmentationDescriptor(**seg_fields))
         if rng.random() < 0.3:
             descs.append(descriptors.AvailDescriptor(provider_avail_id=bits(32)))
         fields['descriptors'] = descs
@@ -418,6 +456,45 @@ def run_scte35_roundtrip(ctx: ShardCtx, res: ShardResult) -> None:
         for name in ('pts_adjustment', 'cw_index', 'tier'):
             if ref[name] != fields[name]:
                 res.violation('scte35-field-not-preserved', f'{kind}: {name} {ref[name]} != {fields[name]}', rp)
+        if seg_fields is not None:
+            res.count('scte35.segmentation_descriptors')
+            try:
+                tag, body = ref['descriptors'][0]
+                sd = scte35_ref.parse_segmentation(body)
+                if tag != 2:
+                    raise ValueError(f'tag {tag}')
+            except Exception as err:
+                res.violation('scte35-segmentation-descriptor-not-parseable', f'{type(err).__name__}: {err} ({data.hex()})', rp)
+                sd = None
+            if sd is not None and not sd['cancel']:
+                want = {'segmentation_event_id': seg_fields['segmentation_event_id'],
+                        'segmentation_type_id': seg_fields['segmentation_type'],
+                        'segment_num': seg_fields.get('segment_num', 0),
+                        'segments_expected': seg_fields.get('segments_expected', 0)}
+                if seg_fields.get('segmentation_duration') is not None:
+                    want['segmentation_duration'] = seg_fields['segmentation_duration']
+                if 'segmentation_upid' in seg_fields:
+                    want['segmentation_upid'] = seg_fields['segmentation_upid'].data
+                    want['segmentation_upid_type'] = seg_fields['segmentation_upid_type']
+                    res.count('scte35.upids')
+                    if not want['segmentation_upid']:
+                        res.count('scte35.empty_upids')
+                else:
+                    want['segmentation_upid'] = b''
+                if seg_fields.get('delivery_not_restricted_flag') is False:
+                    for name in ('web_delivery_allowed_flag', 'no_regional_blackout_flag', 'archive_allowed_flag'):
+                        want[name] = int(seg_fields[name])
+                    want['device_restrictions'] = seg_fields['device_restrictions']
+                if 'sub_segment_num' in seg_fields:
+                    want['sub_segment_num'] = seg_fields['sub_segment_num']
+                    want['sub_segments_expected'] = seg_fields['sub_segments_expected']
+                for name, val in want.items():
+                    if sd.get(name) != val:
+                        res.violation(f'scte35-segmentation-field-not-preserved-{name}',
+                                      f'{kind}: {name} is {sd.get(name)!r} in the encoded signal, constructed with {val!r} '
+                                      f'({data.hex()})', rp)
+            elif sd is not None and sd['segmentation_event_id'] != seg_fields['segmentation_event_id']:
+                res.violation('scte35-segmentation-field-not-preserved-segmentation_event_id', f'{kind} (cancel)', rp)
         if si is not None:
             rsi = ref['splice_insert']
             if rsi['splice_event_id'] != si['splice_event_id']:
